@@ -26,7 +26,7 @@ SRC = vlib.BASE_SRC + [
 ]
 WRAPPED = ["write", "writev", "send", "sendto", "sendmsg", "read", "readv", "recv", "recvfrom", "recvmsg"]
 SPEC = "ByteStream"
-MC_ACTIONS = ["Send", "Enable", "Disable", "WritableCb", "CompleteExit", "PeerRead", "PeerWrite", "PeerClose", "PeerAbort", "RecvEnter",
+MC_ACTIONS = ["Send", "Enable", "Disable", "WritableCb", "CompleteExit", "PeerRead", "PeerWrite", "PeerClose", "PeerAbort", "Bind", "Unbind", "RecvEnter",
               "RecvExit", "ReadZeroEnter", "ReadZeroExit"]
 INVS = ["StreamConserved", "SendCompleteOnlyWhenDrained", "Progress", "RecvInOrderOnce", "CloseOnceAfterData", "NoDeleteInCallback"]
 
@@ -57,7 +57,7 @@ def scan(tr):
     backlog = False         # a send was not written completely and the backlog has not been reported drained yet
     left = 0
     prev_r_data = False
-    wr = pg = 0
+    wr = pg = sn = rt = cons = lastn = 0
     for line in open(tr):
         was_r_data = prev_r_data
         prev_r_data = line.startswith('{"e":"R",') and '"ret":-1' not in line and '"ret":0,' not in line
@@ -81,6 +81,7 @@ def scan(tr):
                 st["failed_writes_peer_gone"] = st.get("failed_writes_peer_gone", 0) + 1
         elif line.startswith('{"e":"Send"'):
             n = int(RE_SEND.search(line).group(1))
+            lastn = n
             st["sends"] = st.get("sends", 0) + 1
             st["max_send"] = max(st.get("max_send", 0), n)
             if not running:
@@ -92,6 +93,29 @@ def scan(tr):
                 st["sends_inside_send_complete_callback"] = st.get("sends_inside_send_complete_callback", 0) + 1
         elif line.startswith('{"e":"SendRet"'):
             insend = False
+            if "true" in line:
+                sn += lastn
+        elif line.startswith('{"e":"R",'):
+            m = re.search(r'"ret":(\d+)', line)
+            if m:
+                rt += int(m.group(1))
+            elif '"again":false' in line:
+                st["read_errors_econnreset"] = st.get("read_errors_econnreset", 0) + 1
+                if was_r_data:
+                    st["read_error_right_after_data_in_one_wakeup"] = st.get("read_error_right_after_data_in_one_wakeup", 0) + 1
+        elif line.startswith('{"e":"Shrink","w":"send"'):
+            if sn > wr > 0:
+                st["shrink_send_buffer_with_backlog"] = st.get("shrink_send_buffer_with_backlog", 0) + 1
+        elif line.startswith('{"e":"Shrink","w":"recv"'):
+            if rt > cons > 0:
+                st["shrink_recv_buffer_with_unconsumed"] = st.get("shrink_recv_buffer_with_unconsumed", 0) + 1
+        elif line.startswith('{"e":"Fwd"'):
+            n = int(re.search(r'"len":(\d+)', line).group(1))
+            st["forwards_to_bound_receiver"] = st.get("forwards_to_bound_receiver", 0) + 1
+            if left > 0 and n > left:
+                st["forwards_including_bytes_left_by_the_callback"] = st.get("forwards_including_bytes_left_by_the_callback", 0) + 1
+            cons += n
+            left = 0
         elif line.startswith('{"e":"Recv"'):
             n = int(RE_RECV.search(line).group(1))
             incb = True
@@ -100,13 +124,15 @@ def scan(tr):
                 st["re_presentations_with_later_data"] = st.get("re_presentations_with_later_data", 0) + 1
             left = n
         elif line.startswith('{"e":"RecvRet"'):
-            left -= int(RE_RET.search(line).group(1))
+            c = int(RE_RET.search(line).group(1))
+            left -= c
+            cons += c
             incb = False
         elif line.startswith('{"e":"Init"'):
             running = '"tcp":true' in line
             left = 0
             incb = incomp = insend = backlog = False
-            wr = pg = 0
+            wr = pg = sn = rt = cons = lastn = 0
             st["executions"] = st.get("executions", 0) + 1
         elif line.startswith('{"e":"Enable"'):
             running = True
@@ -116,10 +142,6 @@ def scan(tr):
             st["peer_close_reports"] = st.get("peer_close_reports", 0) + 1
         elif line.startswith('{"e":"PShut","how":3'):
             st["peer_aborts"] = st.get("peer_aborts", 0) + 1
-        elif line.startswith('{"e":"R",') and '"ret":-1' in line and '"again":false' in line:
-            st["read_errors_econnreset"] = st.get("read_errors_econnreset", 0) + 1
-            if was_r_data:
-                st["read_error_right_after_data_in_one_wakeup"] = st.get("read_error_right_after_data_in_one_wakeup", 0) + 1
         elif line.startswith('{"e":"PRead"') and '"eof":false' in line:
             pg += int(re.search(r'"n":(\d+)', line).group(1))
         elif line.startswith('{"e":"PRead"') and '"eof":true' in line:
@@ -244,7 +266,9 @@ def stream_exec(rnd, transport, buf):
     ops.append({"o": "send", "n": chunk})
     for _ in range(rnd.randint(2, 14)):
         r = rnd.random()
-        if r < 0.45:
+        if r < 0.10:
+            ops.append({"o": rnd.choice(["shrinks", "shrinks", "shrinkr"])})
+        elif r < 0.45:
             ops.append({"o": "pass", "c": rnd.choice([-1, -1, 0, 3])})
         elif r < 0.80:
             ops.append({"o": "pread", "n": rnd.choice([rnd.randint(1, 64), rnd.randint(1, max(2, chunk // 3)), chunk])})
@@ -257,10 +281,36 @@ def stream_exec(rnd, transport, buf):
     return {"t": transport, "thr": rnd.choice([0, 0, 2]), "buf": buf, "ops": finish(ops, tcp)}
 
 
+def bind_exec(rnd, transport, buf):
+    """callback mode that leaves bytes unconsumed (partial record / below the threshold), then bind() to a recording
+    ByteStream, more data, unbind(), ...: nothing may be lost or duplicated at the switch-over; shrinkRecvBuffer() in between"""
+    tcp = transport.startswith("tcp")
+    a = rnd.choice([rnd.randint(2, 40), rnd.randint(100, 6000), rnd.randint(10000, 200000)])
+    thr = rnd.choice([0, 0, a + rnd.randint(1, 10), 2])
+    ops = [] if tcp else [{"o": "enable"}]
+    for _ in range(rnd.randint(1, 3)):
+        ops.append({"o": "pwrite", "n": a})
+        ops.append({"o": "pass", "c": rnd.choice([0, 1, a // 2, max(1, a - 1)])})
+        if rnd.random() < 0.5:
+            ops.append({"o": "shrinkr"})
+        ops.append({"o": "bind"})
+        for _ in range(rnd.randint(1, 2)):
+            ops.append({"o": "pwrite", "n": rnd.randint(1, 2 * a)})
+            ops.append({"o": "pass", "c": -1})
+        if rnd.random() < 0.7:
+            ops.append({"o": "unbind"})
+    if rnd.random() < 0.3:
+        ops.append({"o": "pshut"})
+    return {"t": transport, "thr": thr, "buf": buf, "ops": finish(ops, tcp, enable=False)}
+
+
 def rand_exec(rnd, transport, buf, big):
     """seeded random long script: sizes from 1 byte to several MB, all pacings, close at any point"""
-    if rnd.random() < 0.2:
+    q = rnd.random()
+    if q < 0.2:
         return stream_exec(rnd, transport, buf)
+    if q < 0.3 and transport not in ("tcps4", "tcpsu"):
+        return bind_exec(rnd, transport, buf)
     tcp = transport.startswith("tcp")
     prof = rnd.choice(["tiny", "mid", "big"] if big else ["tiny", "mid", "mid"])
     cap = {"tiny": 6, "mid": 9000, "big": 3000000}[prof]
@@ -288,6 +338,10 @@ def rand_exec(rnd, transport, buf, big):
             ops.append({"o": "pread", "n": size()})
         elif r < 0.56 and not closed:
             ops.append({"o": "pwrite", "n": size()})
+        elif r < 0.60:
+            ops.append({"o": rnd.choice(["shrinks", "shrinkr", "shrinkr"])})
+        elif r < 0.62 and transport != "tcps4" and transport != "tcpsu":
+            ops.append({"o": rnd.choice(["bind", "bind", "unbind"])})
         elif r < 0.84:
             p = {"o": "pass", "c": rnd.choice([-1, -1, 0, 1, 2, size()])}
             q = rnd.random()
@@ -296,7 +350,9 @@ def rand_exec(rnd, transport, buf, big):
                 w = rnd.choice(["recv", "recv", "complete", "close"])
                 for _ in range(rnd.randint(1, 2)):
                     k = rnd.random()
-                    if k < 0.6:
+                    if k < 0.1:
+                        inner.append({"o": rnd.choice(["shrinks", "shrinkr"])})
+                    elif k < 0.6:
                         inner.append({"o": "send", "n": size()})
                     elif tcp and k < 0.75:
                         inner.append({"o": "disconnect"})
@@ -371,6 +427,13 @@ def parse_replay(path):
             if len(stack) > 1:
                 stack.pop()
         elif k in ("W", "R"):
+            if len(stack) == 1 and (not cur or cur[-1].get("o") != "pass"):
+                cur.append({"o": "pass", "c": -1})
+        elif k == "Shrink":
+            cur.append({"o": "shrinks" if e["w"] == "send" else "shrinkr"})
+        elif k in ("Bind", "Unbind"):
+            cur.append({"o": k.lower()})
+        elif k == "Fwd":
             if len(stack) == 1 and (not cur or cur[-1].get("o") != "pass"):
                 cur.append({"o": "pass", "c": -1})
         elif k == "Settled":
@@ -464,11 +527,11 @@ def model_checks(ctx, quick):
     ctx.tlc_mc(SPEC, "MC_BufferedFd.tla", "MC_quick.cfg", required_actions=MC_ACTIONS)
     ctx.tlc_mc(SPEC, "MC_BufferedFd.tla", "MC_quick_tcp.cfg", required_actions=["LocalDisconnect", "RunNextDelete", "ReadZeroEnter"])
     ctx.tlc_mc(SPEC, "MC_BufferedFd.tla", "MC_asfound.cfg", expect="Progress", coverage=False)
-    bugs = [("MC_bug_latedisarm.cfg", "Progress"), ("MC_bug_errorfirst.cfg", "CloseOnceAfterData"),
+    bugs = [("MC_bug_fastpath.cfg", "RecvInOrderOnce"), ("MC_bug_latedisarm.cfg", "Progress"), ("MC_bug_errorfirst.cfg", "CloseOnceAfterData"),
             ("MC_bug_linger0.cfg", "StreamConserved"), ("MC_bug_directq.cfg", "StreamConserved"), ("MC_bug_complete.cfg", "SendCompleteOnlyWhenDrained"),
             ("MC_bug_norepresent.cfg", "RecvInOrderOnce"), ("MC_bug_eofrepeat.cfg", "CloseOnceAfterData"),
             ("MC_bug_deletenow.cfg", "NoDeleteInCallback"), ("MC_bug_readall.cfg", "StreamConserved")]
-    for cfg, inv in (bugs[:4] if quick else bugs):
+    for cfg, inv in (bugs[:5] if quick else bugs):
         ctx.tlc_mc(SPEC, "MC_BufferedFd.tla", cfg, expect=inv, coverage=False)
     temporal_mc(ctx, "MC_live.cfg", False)
     temporal_mc(ctx, "MC_live_asfound.cfg", True)
@@ -491,20 +554,19 @@ def binding(ctx, exe, quick, rnd):
     units = [1, 1500, 70000]
     for i, b in enumerate(behs):
         combos = [(t, buf, u) for (t, buf) in RAW for u in units]
-        if quick:
-            combos = [combos[(i * 5 + k * 7) % len(combos)] for k in range(3)]
+        # every script is executed; the (transport, buffer, unit) regimes rotate over the scripts
+        combos = [combos[(i * 5 + k * 7) % len(combos)] for k in range(1 if quick else 4)]
         for (t, buf, u) in combos:
             execs.append(from_model(b, t, buf, u))
     run_scripts(ctx, exe, execs, "gen-raw")
     execs = []
     for i, b in enumerate(behs_tcp):
         combos = [(t, u) for t in TCP for u in (1, 1500, 300000)]
-        if quick:
-            combos = [combos[(i * 5) % len(combos)]]
+        combos = [combos[(i * 5 + k * 7) % len(combos)] for k in range(1 if quick else 4)]
         for (t, u) in combos:
             execs.append(from_model(b, t, 0, u))
     if quick:
-        execs = execs[:700]
+        execs = rnd.sample(execs, 900)
     run_scripts(ctx, exe, execs, "gen-tcp")
     # random deep behaviours of the model
     nsim = 250 if quick else 3000
@@ -533,7 +595,8 @@ def binding(ctx, exe, quick, rnd):
                   "send_complete_notifications", "sends_inside_send_complete_callback",
                   "partial_sends_inside_send_complete_after_backlog", "peer_aborts",
                   "read_error_right_after_data_in_one_wakeup", "peer_saw_eof_after_local_close",
-                  "local_disconnects_with_over_100KB_in_flight"):
+                  "local_disconnects_with_over_100KB_in_flight", "shrink_send_buffer_with_backlog",
+                  "shrink_recv_buffer_with_unconsumed", "forwards_including_bytes_left_by_the_callback"):
             if STATS.get(k, 0) == 0:
                 raise vlib.Infra("vacuity guard: no recorded execution reached '%s'" % k)
         if STATS.get("max_send", 0) < 1000000:
@@ -552,7 +615,7 @@ def binding(ctx, exe, quick, rnd):
         "loopback TCP the driver additionally waits (<= 3 s, 5 ms steps; observed: <= 50 ms, Nagle + delayed ACK) while data is known to be in flight",
     ]
     ctx.uncovered = [
-        "bind()/unbind() forwarding mode of BufferedFd (received bytes passed to another ByteStream) is not exercised",
+        "bind() mode through TcpServer (it has no bind()); a bound receiver that unbinds from inside its send()",
         "that a send-complete notification is eventually delivered is not demanded (the statement only restricts when it may fire)",
         "local disconnect: bytes still in the object's own queue at that moment are dropped by design (bytes already written to the "
         "descriptor must arrive, followed by end-of-file, when the close is clean)",
